@@ -23,6 +23,8 @@ void splinetable<Alloc>::fit(const ::ndsparse& data,
 	              "DoubleContCont must be a container of DoubleCont values");
 	
 	//Sanity checking
+	if(data.ndim==0 || data.rows==0)
+		throw std::logic_error("Input data must have at least one dimension and one data point");
 	if(data.rows!=weights.size())
 		throw std::logic_error("Number of weights ("
 		                       +std::to_string(weights.size())
@@ -53,10 +55,23 @@ void splinetable<Alloc>::fit(const ::ndsparse& data,
 		                       +") does not equal dimension of input data ("
 		                       +std::to_string(data.ndim)+")");
 	for(uint32_t i=0; i<data.ndim; i++){
+		if(coords[i].size()<data.ranges[i])
+			throw std::logic_error("Coordinate vector for dimension "
+			                       +std::to_string(i)+" has "
+			                       +std::to_string(coords[i].size())
+			                       +" entries, fewer than the range of coordinate indices ("
+			                       +std::to_string(data.ranges[i])+")");
 		if(!std::is_sorted(knots[i].begin(),knots[i].end()))
 			throw std::logic_error("Knot vector for dimension "
 			                       +std::to_string(i)+
 			                       " is not in sorted order");
+		//need at least order+1 basis functions, each spanning order+2 knots
+		if(knots[i].size()<2*(uint64_t)splineOrder[i]+2)
+			throw std::logic_error("Knot vector for dimension "
+			                       +std::to_string(i)+" has "
+			                       +std::to_string(knots[i].size())
+			                       +" entries, too few for spline order "
+			                       +std::to_string(splineOrder[i]));
 	}
 	if(smoothing.size()!=data.ndim && smoothing.size()!=1)
 		throw std::logic_error("Number of smoothing strengths specified ("
@@ -127,9 +142,14 @@ void splinetable<Alloc>::fit(const ::ndsparse& data,
 		}
 		penalty=cholmod_l_spzeros(sidelen, sidelen, 1, CHOLMOD_REAL, &cholmod_state);
 		for(uint32_t i = 0; i < ndim; i++){
+			uint32_t porder=(penaltyOrder.size()>1?penaltyOrder[i]:penaltyOrder[0]);
+			//derivatives of order higher than the spline order vanish, and so
+			//does the corresponding penalty
+			if(porder>order[i] || porder>=nsplines[i])
+				continue;
 			penalty = add_penalty_term(nsplines.get(), &this->knots[i][0], ndim,
 			                           i, order[i],
-			                           (penaltyOrder.size()>1?penaltyOrder[i]:penaltyOrder[0]),
+			                           porder,
 			                           (smoothing.size()>1?smoothing[i]:smoothing[0]),
 			                           i==monodim, penalty,
 			                           &cholmod_state);
